@@ -19,7 +19,11 @@ another.  Dependence on what the process did before is explored EXPLICITLY in
 two E3 layers (sqlite-hist, pd-hist): a same-named table / same-named columns
 are discovered again after something else, with the differential oracle "the
 last discovery reports what it reports from a fresh state" in front of the
-model (signature history-dependent:<source>:<mode>:<aspect>).
+model (signature history-dependent:<source>:<mode>:<aspect>).  A third E3
+layer (sqlite-txn) works on ONE connection: some rows of the table are
+committed, the others only written, and every sequence of three operations out
+of {discover_db_table, caller commits} follows; every discovery must report
+all the rows the caller wrote (history-dependent:sqlite:uncommitted-rows:...).
 """
 import collections
 import contextlib
@@ -27,6 +31,9 @@ import datetime
 import io
 import itertools
 import json
+import os
+import shutil
+import tempfile
 
 from mc.engine import Check, Res
 from mc import frames_alphabet as FA
@@ -56,6 +63,14 @@ SQL_DECL_MORE = {
     'TIMESTAMP': 'date',
 }
 SQL_NAMES = ['c', 'my col', 'é']
+# how the caller's connection is made and how it handles transactions
+TXN_CONNS = ['tdda-mem',        # database_connection(db=':memory:'): python's
+                                # default, a transaction opens before DML
+             'tdda-file',       # the same on a database file
+             'own-autocommit-off',  # DBConnector(sqlite3.connect(...,
+                                    # autocommit=False)): always in a txn
+             'own-explicit-begin']  # isolation_level=None + BEGIN by hand
+TXN_OPS = 'DC'                  # discover_db_table / the caller commits
 
 
 def sql_columns(decl, kind, maxrows, name, values=None):
@@ -111,7 +126,13 @@ class C07(Check):
             'kept open, DROP+CREATE in the same database | new frame object, '
             'same frame object with replaced columns}, plus exchanged column '
             'types, an inserted leading column and the category boundary '
-            '(thorough: two earlier steps, 14 more declared types); '
+            '(thorough: two earlier steps, 14 more declared types); E3 on one '
+            'connection: every one-column table of 1..2 rows (thorough 3) '
+            'over 5 declared types x every split into k committed rows + the '
+            'rest written but not committed x 4 kinds of connection (made by '
+            'tdda on :memory: / on a file, made by the caller with '
+            'autocommit off / with an explicit BEGIN) x all 8 sequences of 3 '
+            'operations out of {discover_db_table, connection.commit()}; '
             'non-trivial = the model requires at least one statistic beyond '
             'the type')
     assumptions = [
@@ -136,7 +157,17 @@ class C07(Check):
         'every case starts from the process state "tdda imported, never '
         'called" (forked child); state kept by tdda between calls is explored '
         'only through the explicit histories of the sqlite-hist / pd-hist '
-        'layers (depth 1, thorough 2)',
+        'layers (depth 1, thorough 2) and the operation sequences of '
+        'sqlite-txn',
+        'rows the caller has written through the connection handed to '
+        'discover_db_table and not yet committed belong to the table (the '
+        'connection sees them; the quantifier says "all SQLite tables", not '
+        '"committed"); the caller never rolls back, so every discovery on '
+        'that connection is held to the statistics of all rows written',
+        'cells are str (object dtype / Categorical / SQLite text); bytes '
+        'cells (SQLite blobs in a TEXT column) are not "strings" of the '
+        'quantifier and "length in characters" is undefined for them: not '
+        'enumerated',
     ]
 
     # ----------------------------------------------------------- enumeration
@@ -163,6 +194,16 @@ class C07(Check):
                                 'CREATE in the same database) discovered '
                                 'again: must equal discovery from a fresh '
                                 'state'),
+                ('sqlite-txn', 'E3 on ONE connection: a table whose first '
+                               'k rows are committed and whose other rows '
+                               'are written but not (yet) committed, then '
+                               'every sequence of 3 operations out of '
+                               '{discover_db_table, caller commits}; '
+                               'connection made by tdda (:memory: / file) or '
+                               'by the caller (autocommit off / explicit '
+                               'BEGIN): every discovery must report the '
+                               'statistics of ALL rows, as from a fresh '
+                               'state'),
                 ('pd-hist', 'E3: discover_df on a frame, then on another '
                             'frame object with the same column names, or on '
                             'the same frame object after its columns were '
@@ -227,6 +268,17 @@ class C07(Check):
         elif layer == 'pd-hist':
             for case in self.grouped(self.pd_histories(thorough)):
                 yield case
+        elif layer == 'sqlite-txn':
+            nv, rows = (4, 3) if thorough else (3, 2)
+            for conn in TXN_CONNS:
+                for decl, kind in SQL_DECL.items():
+                    for col in sql_columns(decl, kind, rows, 'c',
+                                           SQL_VALUES[kind][:nv]):
+                        n = len(col['v'])
+                        for k in range(n + 1 if n else 0):
+                            yield {'src': 'sqlite', 'cols': [col],
+                                   'txn': {'conn': conn, 'committed': k,
+                                           'depth': 3}}
 
     @staticmethod
     def grouped(histories):
@@ -314,11 +366,16 @@ class C07(Check):
         self.discover_df = discover_df
         self.discover_db_table = discover_db_table
         self.connect = database_connection
+        from tdda.constraints.db.drivers import DBConnector
+        self.DBConnector = DBConnector
+        self.sandbox = tempfile.mkdtemp(prefix='tdda_mc_c07_', dir='/var/tmp')
         FA.build_frame({'cols': [{'name': 'a', 'fam': 'i64', 'v': [1]}]})
         FF.freeze()
 
     def teardown_worker(self):
-        pass
+        sb = getattr(self, 'sandbox', None)
+        if sb and os.path.isdir(sb):
+            shutil.rmtree(sb, ignore_errors=True)
 
     # ------------------------------------------- real calls (in the child)
     def open_db(self):
@@ -393,6 +450,62 @@ class C07(Check):
 
     mutate = staticmethod(FA.mutate_into)
 
+    def open_txn_db(self, conn, tag):
+        """-> (connector for tdda, DB-API connection of the caller, file)"""
+        import sqlite3
+        if conn == 'tdda-mem':
+            db = self.open_db()
+            return db, db.connection, None
+        if conn == 'tdda-file':
+            path = os.path.join(self.sandbox, 'db_%s.sqlite3' % tag)
+            if os.path.exists(path):
+                os.remove(path)
+            db = self.connect(dbtype='sqlite', db=path)
+            return db, db.connection, path
+        if conn == 'own-autocommit-off':
+            c = sqlite3.connect(':memory:', autocommit=False)
+        else:
+            c = sqlite3.connect(':memory:', isolation_level=None)
+        return self.DBConnector(c, None, database=':memory:'), c, None
+
+    def child_txn(self, case):
+        """Every sequence of `depth` operations out of TXN_OPS, each on a
+        new connection whose table t holds `committed` committed rows and the
+        remaining rows written through the same connection but not
+        committed.  -> [(sequence so far, observation)] for every discovery."""
+        cols, txn = case['cols'], case['txn']
+        n = len(cols[0]['v'])
+        out = []
+        for si, seq in enumerate(itertools.product(TXN_OPS,
+                                                   repeat=txn['depth'])):
+            db, conn, path = self.open_txn_db(txn['conn'], si)
+            cur = conn.cursor()
+            cur.execute('CREATE TABLE t (%s)' % ', '.join(
+                '"%s" %s' % (c['name'], c['decl']) for c in cols))
+            conn.commit()
+            for i in range(n):
+                if i == txn['committed']:
+                    conn.commit()
+                    if txn['conn'] == 'own-explicit-begin':
+                        cur.execute('BEGIN')
+                cur.execute('INSERT INTO t VALUES (%s)'
+                            % ', '.join('?' for c in cols),
+                            [c['v'][i] for c in cols])
+            if txn['committed'] >= n:
+                conn.commit()
+            done = ''
+            for op in seq:
+                if op == 'C':
+                    conn.commit()
+                else:
+                    out.append((done, self.observe(self.discover_db_table,
+                                                   'sqlite', db, 't')))
+                done += op
+            conn.close()
+            if path and os.path.exists(path):
+                os.remove(path)
+        return out
+
     # ------------------------------------------------------------------ run
     def fresh(self, fn, case):
         try:
@@ -404,6 +517,8 @@ class C07(Check):
         R = Res()
         if 'hists' in case:
             return self.run_histories(R, case)
+        if 'txn' in case:
+            return self.run_txn(R, case)
         obs = self.fresh(self.child_single, case)
         R.ev()
         self.judge(R, case, obs)
@@ -470,6 +585,56 @@ class C07(Check):
                                 'does not depend on what the process '
                                 'discovered before'}, {'history': i})
         R.states = nstates
+        self.judge(R, last, f)
+        return R
+
+    def run_txn(self, R, case):
+        """E3 on one connection.  The caller wrote every row and removed
+        none, so every discovery must report the statistics of all the rows
+        (model), which is what a fresh process reports for the same table
+        with everything committed (differential, in front of the model)."""
+        last = {'src': 'sqlite', 'cols': case['cols']}
+        txn = case['txn']
+        f = self.fresh(self.child_single, last)
+        R.ev()
+        R.nontrivial = True
+        n = len(case['cols'][0]['v'])
+        pending = txn['committed'] < n
+        h = self.fresh(self.child_txn, case)
+        if h and h[0] == 'escaped':
+            self.judge(R, last, h)
+            return R
+        seen = set()
+        for (done, obs) in h:
+            R.ev(1, checked=1)
+            nd = done.count('D')
+            seen.add((done.count('C') > 0, nd))
+            where = 'first-discovery' if nd == 0 else 'after-a-discovery'
+            if obs == f:
+                R.out('txn:%s:%s:%s:same-as-fresh' % (
+                    txn['conn'].split('-')[0],
+                    'uncommitted-rows' if pending else 'all-committed',
+                    where))
+                continue
+            aspect = self.first_difference(obs, f)
+            R.out('txn:%s:differs:%s' % (txn['conn'], aspect))
+            R.viol('history-dependent:sqlite:%s:%s' % (
+                'uncommitted-rows' if pending else 'all-committed', where),
+                'same-result-as-from-fresh-state',
+                {'source': 'sqlite', 'connection': txn['conn'],
+                 'table': self.what(last),
+                 'rows_committed_before_discovery': txn['committed'],
+                 'rows_written_not_committed': n - txn['committed'],
+                 'operations_before_this_discovery':
+                     [{'D': 'discover_db_table', 'C': 'connection.commit()'}[o]
+                      for o in done],
+                 'first_difference': aspect, 'observed': obs,
+                 'from_fresh_state_all_committed': f,
+                 'expected': 'the caller wrote these rows through the '
+                             'connection and removed none: every discovery '
+                             'reports the statistics of all of them'},
+                {'after': done})
+        R.states = len(seen) + 1
         self.judge(R, last, f)
         return R
 
